@@ -569,6 +569,81 @@ func VerifC04DeleteInterleavedGC() {
 	verifReach("end")
 }
 
+// VerifC04GCUnderIterator: an iterator stays open, positioned on a domain, while a garbage-collection pass
+// compacts the file that domain lives in. Reading through the iterator afterwards — the current domain without
+// re-seeking, then every following domain — returns the same bytes as before the pass.
+func VerifC04GCUnderIterator() {
+	n := verifParam("n", 3)
+	specs := make([]VerifDomainSpec, n)
+	for i := range specs {
+		d := []byte{byte(16*(i+1) + 0), byte(16*(i+1) + 1), byte(16*(i+1) + 2)}
+		specs[i] = VerifDomainSpec{Start: telem.TimeStamp(100 * (i + 1)), End: telem.TimeStamp(100*(i+1) + 30), Data: d}
+	}
+	mem := xfs.NewMem()
+	db := verifBuildRealDBCfg(Config{FS: mem, FileSize: 7, GCThreshold: 0.2}, specs, nil)
+	ctx := context.Background()
+	res := func(_ context.Context, domainStart telem.TimeStamp, ts telem.TimeStamp) (telem.Size, telem.TimeStamp, error) {
+		return telem.Size((ts - domainStart) / 10), ts, nil
+	}
+	dom, from := verifLen("cut.domain", 0, n-1), verifLen("cut.from", 0, 2)
+	to := verifLen("cut.to", from+1, 3)
+	base := telem.TimeStamp(100 * (dom + 1))
+	verifAssert("delete-ok", db.Delete(ctx, telem.TimeRange{Start: base + telem.TimeStamp(10*from), End: base + telem.TimeStamp(10*to)}, res, res) == nil)
+	want, ok := verifScan(db)
+	verifAssert("scan-before-gc-ok", ok)
+	if len(want) == 0 {
+		return
+	}
+	readCur := func(it *Iterator) ([]byte, bool) {
+		r, err := it.OpenReader(ctx)
+		if err != nil {
+			return nil, false
+		}
+		buf := make([]byte, it.Size())
+		good := true
+		if len(buf) > 0 {
+			if _, err = r.ReadAt(buf, 0); err != nil {
+				good = false
+			}
+		}
+		if r.Close() != nil {
+			good = false
+		}
+		return buf, good
+	}
+	same := func(a, b []byte) bool {
+		if len(a) != len(b) {
+			return false
+		}
+		eq := true
+		for i := range a {
+			if a[i] != b[i] {
+				eq = false
+			}
+		}
+		return eq
+	}
+	it := db.OpenIterator(IterRange(telem.TimeRangeMax))
+	at := verifLen("positioned-at", 0, len(want)-1)
+	verifAssert("seek-first", it.SeekFirst(ctx))
+	for k := 0; k < at; k++ {
+		verifAssert("advance", it.Next())
+	}
+	before, okb := readCur(it)
+	verifAssert("read-before-gc-ok", okb && same(before, want[at].data))
+	verifAssert("gc-ok", db.GarbageCollect(ctx) == nil)
+	for k := at; k < len(want); k++ {
+		if k > at {
+			verifAssert("advance-after-gc", it.Next())
+		}
+		got, okr := readCur(it)
+		verifAssert("read-through-open-iterator-after-gc-ok", okr)
+		verifAssert("read-through-open-iterator-unchanged-by-gc", same(got, want[k].data) && it.TimeRange() == want[k].tr)
+	}
+	verifAssert("iterator-close", it.Close() == nil)
+	verifReach("end")
+}
+
 // VerifC04GCInterleavedWriter: after a reopen, a file with free space and a tombstone is both a candidate for
 // garbage collection and available to new writers. A writer that is opened (and may start writing) while
 // GarbageCollect is between its "has this file a writer?" check and the compaction of that file and that
